@@ -1,6 +1,7 @@
 // C12 driver: the four built-in samplers through Sampler::ShouldSample / GetDescription, the
 // threshold_ member of TraceIdRatioBasedSampler right after construction, and the sampled flag /
 // trace state of spans started through a real sdk Tracer.  Case format: see coq/C12/Glue.v.
+#include "opentelemetry/sdk/common/global_log_handler.h"
 #include <cmath>
 #include <cstring>
 #include <map>
@@ -374,4 +375,9 @@ static void one_case(const Toks &t, Out &o)
   o.tag("BADCASE");
 }
 
-int main(int argc, char **argv) { return verif::run_cases(argc, argv, one_case); }
+int main(int argc, char **argv)
+{
+  // the SDK's internal log goes to stdout by default and would corrupt the one-line-per-case protocol
+  opentelemetry::sdk::common::internal_log::GlobalLogHandler::SetLogLevel(opentelemetry::sdk::common::internal_log::LogLevel::None);
+  return verif::run_cases(argc, argv, one_case);
+}
